@@ -219,6 +219,10 @@ def payload(t):
         # the success payload of `Ok(v) | Err(e)` is v: failure alternatives carry no payload (they arise when a helper that
         # returns a Result has been inlined, so that both of its return values are visible)
         xs = [x for x in t[1] if not (x[0] == 'agg' and x[2] in FAILURE_VARIANTS and x[1] and x[1].startswith(WRAPPER_ADTS)) and x[0] != 'residual']
+        # likewise `Some(v) | None` (an inlined helper returning Option<T>, then `?` / `match`): the None next to a Some of the same
+        # Option is this wrapper's own failure value, not a payload
+        if any(x[0] == 'agg' and x[2] == 'Some' and x[1] and x[1].startswith('std::option::Option') for x in xs):
+            xs = [x for x in xs if not (x[0] == 'agg' and x[2] == 'None' and x[1] and x[1].startswith('std::option::Option'))]
         if not xs:
             xs = list(t[1])
         return mk_any([payload(x) for x in xs])
